@@ -9,4 +9,4 @@ rsync -a --exclude .git --exclude htmlcov --exclude docs /repo/ "$D/"
 if [ -f "$EXPR" ]; then (cd "$D" && patch -p1 -s < "$EXPR"); else sed -i "$EXPR" "$D/$FILE"; fi
 if [ -n "$FILE" ] && cmp -s "/repo/$FILE" "$D/$FILE"; then echo "MUTATION DID NOT APPLY"; exit 3; fi
 set +e
-MENELAUS_SRC="$D" VERIF_EVIDENCE_DIR="$D/_ev" VERIF_REPLAY_DIR="$D/_rp" /verif/check "$CHECK" --tier "$TIER" 2>&1 | grep -E 'VIOLATION|KNOWN|INCONCL|HARNESS|VACUITY|NON-REPRO|exit|obligation=' | head -20
+MENELAUS_SRC="$D" VERIF_EVIDENCE_DIR="$D/_ev" VERIF_REPLAY_DIR="$D/_rp" /verif/check "$CHECK" --tier "$TIER" 2>&1 | grep -E 'VIOLATION|KNOWN|INCONCL|HARNESS|VACUITY|NON-REPRO|exit|obligation=' | head -80
